@@ -298,6 +298,9 @@ def g_descr(rng):
 
 
 def g_numericoid(rng):
+    if rng.random() < 0.04:
+        # UUID-derived OIDs (X.667): one arc of up to 39 digits, and longer ones
+        return "2.25." + rng.choice([str(2**128 - 1), "329800735698586629295641978511506172918", "1" + "0" * 38, "9" * 45, str(rng.getrandbits(127))])
     return ".".join(rng.choice(["0", "1", "2", "5", "10", "840", "113556", str(rng.randint(0, 99999))]) for _ in range(rng.choice([2, 3, 4, 8])))
 
 
@@ -314,7 +317,7 @@ def g_text(rng):
     if r < 0.9:
         return rng.choice(["é", "中文 text", "\U0001f600", "ß'\\", "　x", "\x7f", "tab\there", "nl\nhere",
                            # line structure inside a value (LDIF-style folding, continuation lines) is data here
-                           "see X-SUBST (notes)", "plot x-axis (time)", "then X-A 'b'", "NAME 'x' DESC 'y'", "a ) X-B ( c", "Summary:\n indented detail", "a\r\n b", "x\n\n  y", "\n ", " \n", "line1\r\nline2"])
+                           "runs f(x) X-hook () when added", ") X-a ( )", " X-foo ", " X-foo (", "( 'x' ) X-b 'c'", "see X-SUBST (notes)", "plot x-axis (time)", "then X-A 'b'", "NAME 'x' DESC 'y'", "a ) X-B ( c", "Summary:\n indented detail", "a\r\n b", "x\n\n  y", "\n ", " \n", "line1\r\nline2"])
     return "".join(chr(rng.choice([rng.randint(1, 0x7F), rng.randint(0x80, 0x7FF), rng.randint(0x800, 0xD7FF), rng.randint(0x10000, 0x10FFFF)])) for _ in range(rng.randint(1, 8)))
 
 
